@@ -9,7 +9,7 @@ import re
 from . import core
 from . import gen_solver as G
 from . import objectives
-from .isolate import fork_call
+from .isolate import fork_call, PristineServer
 from .suites import Report, SolverSuite, register, interleave, gen_nested, TIE_FAMILIES
 from .world import World, Monitor, read_solution, _reraise_if_harness, _innermost_file
 from .oracles import C06Monitor, rel_eq
@@ -166,8 +166,23 @@ class C11(SolverSuite):
             pos = sorted(rng.randint(0, len(ops)) for _ in dops)
             for off, (i, o) in enumerate(zip(pos, dops)):
                 ops.insert(i + off, o)
+        if rng.random() < 0.12 and not spec["params"].get("refineSolution"):
+            # the user relaxes / tightens the stop parameters on the parameters object and calls Solve again
+            cur = dict(spec["params"])
+            for _ in range(rng.randint(1, 2)):
+                if rng.random() < 0.7:
+                    cur["itersLimit"] = int(max(1, cur["itersLimit"] + rng.choice([-3, 1, 2, 5, 20])))
+                    ops.append({"a": "S0", "op": "setp", "field": "itersLimit", "value": cur["itersLimit"]})
+                else:
+                    cur["eps"] = float("%.3g" % max(G.EPS_MIN[spec["objective"]["N"]], cur["eps"] * rng.choice([0.5, 0.2, 2.0])))
+                    ops.append({"a": "S0", "op": "setp", "field": "eps", "value": cur["eps"]})
+                ops.append({"a": "S0", "op": "solve"})
         from .suites import gen_self_reads
-        return gen_self_reads(rng, G.base_plan(self.prop, run_seed, actors, ops, clock=G.gen_clock(rng)))
+        plan = gen_self_reads(rng, G.base_plan(self.prop, run_seed, actors, ops, clock=G.gen_clock(rng)))
+        if rng.random() < 0.08 and not any(o["op"] == "setp" for o in ops):
+            # a listener of the user fails once; the caller carries on: the trial sequence is still the same sequence
+            G.add_listener_fault(rng, plan)
+        return plan
 
     def check_xproc(self, plan):
         import subprocess
@@ -218,7 +233,20 @@ class C11(SolverSuite):
         tg = [(y, v) for (ph, y, v, f) in twin["calls"] if ph == "global"]
         tstar = len(tg)
         sumk = sum(o.get("k", 0) for o in ops if o["op"] == "iterate")
-        n = max(sumk, tstar)
+        # stop parameters changed between Solve calls: the trial sequence does not depend on them, each Solve runs to the first
+        # moment ITS criterion holds: final length = max(sum k, T* of every stage)
+        stage = copy.deepcopy(spec)
+        for o in ops:
+            if o["op"] == "setp":
+                stage["params"][o["field"]] = o["value"]
+                tw = solo_run(copy.deepcopy(stage), [{"op": "create"}, {"op": "solve"}])
+                rep.n_exec += 1
+                if tw["aborted"]:
+                    rep.inconclusive["twin_" + str(tw["aborted"])] += 1
+                    return rep
+                tstar = max(tstar, len([c for c in tw["calls"] if c[0] == "global"]))
+        lfault = bool(plan.get("lfaults"))
+        n = max(sumk, tstar) if not lfault else sumk + tstar     # (upper bound on the trials of a run with a cut-short Solve)
         ref = solo_run(spec, [{"op": "create"}] + [{"op": "iterate", "k": 1}] * n)
         rep.n_exec += 1
         if ref["aborted"]:
@@ -228,7 +256,7 @@ class C11(SolverSuite):
 
         def bad(clause, msg, locus="history"):
             rep.violations.append(core.Violation(self.prop, clause, msg, locus))
-        d = first_diff(tg, rg[:tstar])
+        d = first_diff(tg, rg[:len(tg)])
         if d:
             bad("twin_vs_stepwise", "Solve alone and one-at-a-time stepping differ at trial %d: %r vs %r" % (d[0] + 1, d[1], d[2]))
             return rep
@@ -252,6 +280,11 @@ class C11(SolverSuite):
             bad("batching_changes_trials", "batched run (batches %r then Solve) differs from one-at-a-time stepping at trial %d: %r vs %r"
                 % ([o.get("k") for o in ops if o["op"] == "iterate"], d[0] + 1, d[1], d[2]))
             return rep
+        if lfault:
+            # a Solve cut short by the failing listener legitimately ends early: only the common-prefix clause applies
+            rep.probes["listener_fault_plans"] += 1
+            rep.nontrivial = core.short_hash((spec["objective"], spec.get("lower"), spec["params"], "lfault", plan["lfaults"]))
+            return rep
         if len(vg) != n:
             bad("length", "batched run made %d global trials, expected max(sum k=%d, T*=%d)" % (len(vg), sumk, tstar))
             return rep
@@ -260,6 +293,8 @@ class C11(SolverSuite):
         seen_solve = False
         prev = None
         for s in sm:
+            if s["op"] == "setp":
+                seen_solve = False       # the criterion in force changed: the solver is no longer "finished"
             if s["op"] == "solve":
                 if seen_solve and prev is not None:
                     g_now = s["results"][2] if s["results"] else None
@@ -270,7 +305,7 @@ class C11(SolverSuite):
             if s["op"] != "create":
                 prev = s
         # with sum k <= T* the final result equals the twin's
-        if sumk <= tstar and not spec["params"].get("refineSolution"):
+        if sumk <= tstar and not spec["params"].get("refineSolution") and not any(o["op"] == "setp" for o in ops):
             tr = twin["ops"][-1]["results"]
             vr = sm[-1]["results"]
             if tr and vr and (tr[0], tr[1], tr[2], tr[4]) != (vr[0], vr[1], vr[2], vr[4]):
@@ -393,7 +428,7 @@ class C12(SolverSuite):
                 actors[aid]["params"]["itersLimit"] = L
             pre = rng.choice([0, rng.randint(0, L), rng.randint(0, L)])
             ops = G.gen_single_ops(rng, aid, pre, with_solve=rng.random() < 0.8, results_prob=0.3,
-                                   after_solve_iters=rng.choice([0, 0, rng.randint(1, 6)]))
+                                   after_solve_iters=rng.choice([0, 0, rng.randint(1, 6)]), refine_ops=rng.random() < 0.25)
             if rng.random() < 0.3:
                 ops.append({"a": aid, "op": "solve"})
             ops = G.sprinkle_evq(rng, ops, aid, actors[aid], prob=0.1)
@@ -440,9 +475,23 @@ class C12(SolverSuite):
         from .suites import gen_self_reads
         for aid in sorted(actors):
             gen_self_reads(rng, plan, aid=aid, prob=0.06, max_entries=2)
+        if rng.random() < 0.12:
+            # one solver's objective fails once (its caller catches it, or its Solve contains it) while the others carry on
+            aid = rng.choice(sorted(a for a in actors if actors[a]["objective"]["N"] <= 5))
+            actors[aid]["params"]["refineSolution"] = False
+            plan["faults"] = [{"a": aid, "at_eval": rng.choice([2, 3, rng.randint(2, 15)]), "exc": rng.choice(["ValueError", "KeyboardInterrupt", "SimFault"]),
+                               "when": rng.choice(["before", "after"]), "persistent": False, "noargs": rng.random() < 0.2}]
+            plan["continue_after_fault"] = True
         return plan
 
     def check(self, plan):
+        srv = PristineServer()       # forked before anything runs here: solo references start from the pristine state
+        try:
+            return self._check(plan, srv)
+        finally:
+            srv.close()
+
+    def _check(self, plan, srv):
         rep = Report()
         mons = self.monitors()
         w = C12World(plan, mons).run()
@@ -476,7 +525,8 @@ class C12(SolverSuite):
                 if s["op"] == "evq":
                     o = dict(s["evq"])
                 ops.append(o)
-            solo = fork_call(solo_run, plan["actors"][aid], ops)
+            solo = srv.call(solo_run, plan["actors"][aid], ops, None, [f for f in plan.get("faults", []) if f["a"] == aid],
+                            plan.get("continue_after_fault", False))
             rep.n_exec += 1
             d = first_diff([_strip(s) for s in mine], [_strip(s) for s in solo["ops"]])
             if d:
@@ -532,6 +582,13 @@ def gen_listeners(rng, N, n_trials_hint):
                 ls["via"] = "mixin"         # callbacks come from a mixin
             elif v < 0.38 and ls["overrides"]:
                 ls["via"] = "console"       # subclass of the shipped console listener overriding a subset (and calling super)
+            elif v < 0.44:
+                ls["via"] = "router"        # attaches a child listener to the solver from inside its BeforeMethodStart
+                if "BeforeMethodStart" not in ls["overrides"]:
+                    ls["overrides"] = ["BeforeMethodStart"] + ls["overrides"]
+            elif v < 0.50:
+                ls["via"] = "eq"            # instances compare equal to each other (value semantics): two of them are attached
+                out.append(dict(ls))
             out.append(ls)
         elif u < 0.68:
             out.append({"kind": "console", "mode": rng.choice(["full", "custom", "result"]), "iters": rng.choice([1, 2, 5, 100])})
@@ -695,6 +752,13 @@ class C13(SolverSuite):
         return plan
 
     def check(self, plan):
+        srv = PristineServer()       # forked before anything runs here: the listener-free twin starts from the pristine state
+        try:
+            return self._check(plan, srv)
+        finally:
+            srv.close()
+
+    def _check(self, plan, srv):
         rep = Report()
         mons = self.monitors()
         w = World(plan, mons).run()
@@ -734,7 +798,12 @@ class C13(SolverSuite):
         def notifications(a, spec, marks):
             real = [c for c in a.calls if c.phase != "probe"]
             # (2) notification history of every recording listener
-            for lid, ls in enumerate(spec["listeners"]):
+            eff = list(enumerate(spec["listeners"]))
+            # a child attached by a router listener during BeforeMethodStart is attached before the first trial: full contract
+            # ("it is told once before the first trial ...")
+            eff += [(lid + 100, {"kind": "recording", "overrides": list(ALL_CB), "child": True})
+                    for lid, ls in enumerate(spec["listeners"]) if ls.get("via") == "router"]
+            for lid, ls in eff:
                 if ls["kind"] != "recording":
                     continue
                 ov = set(ls["overrides"])
@@ -828,8 +897,8 @@ class C13(SolverSuite):
         twin_spec["listeners"] = []
         twin_spec["brackets"] = False
         ops = [o for o in plan["ops"] if o["a"] == "S0"]
-        twin = fork_call(solo_run, twin_spec, ops, plan.get("clock"), [f for f in plan.get("faults", []) if f["a"] == "S0"],
-                         plan.get("continue_after_fault", False))
+        twin = srv.call(solo_run, twin_spec, ops, plan.get("clock"), [f for f in plan.get("faults", []) if f["a"] == "S0"],
+                        plan.get("continue_after_fault", False))
         rep.n_exec += 1
         rep.probes["fault_configuration"] += int(bool(a.fired_faults))
         mine = [(c.y, c.value) for c in real]
